@@ -9,6 +9,7 @@ import Driver.C08
 import Driver.C06
 import Driver.C17
 import Driver.C12
+import Driver.C20
 
 def main (args : List String) : IO UInt32 := do
   match args with
@@ -23,4 +24,5 @@ def main (args : List String) : IO UInt32 := do
   | ["c06"] => Driver.C06.run; return 0
   | ["c17"] => Driver.C17.run; return 0
   | ["c12"] => Driver.C12.run; return 0
+  | ["c20"] => Driver.C20.run; return 0
   | _ => IO.eprintln "usage: bufmodel <property-protocol>"; return 2
